@@ -14,6 +14,7 @@ import (
 	"testing"
 	"time"
 
+	"github.com/ipfs/go-cid"
 	"pgregory.net/rapid"
 
 	ipfslog "berty.tech/go-ipfs-log"
@@ -26,7 +27,7 @@ import (
 )
 
 type xop struct {
-	Kind string `json:"k"` // join | append | stream (Dst merges from Src once per entry it receives from an iterator over Src that runs on a goroutine of its own and sends on an unbuffered channel; the cooperative engine runs it as one merge)
+	Kind string `json:"k"` // join | append | iter (a reader iterates over Dst into a roomy channel; Src selects the bound: below / down from one of the oldest entries the log holds - which on a windowed log names predecessors the log does not hold - or none; errors are the caller's answer, not the log's business afterwards) | stream (Dst merges from Src once per entry it receives from an iterator over Src that runs on a goroutine of its own and sends on an unbuffered channel; the cooperative engine runs it as one merge)
 	Dst  int    `json:"dst"`
 	Src  int    `json:"src,omitempty"`
 	Size *int   `json:"size,omitempty"` // join: size bound (nil: unbounded)
@@ -61,7 +62,10 @@ func genC14(t *rapid.T) c14Prog {
 		k := rapid.IntRange(1, 3).Draw(t, "nops")
 		var ops []xop
 		for j := 0; j < k; j++ {
-			o := xop{Kind: rapid.SampledFrom([]string{"join", "join", "append", "join", "join", "append", "stream"}).Draw(t, "kind"), Dst: rapid.IntRange(0, n-1).Draw(t, "dst")}
+			o := xop{Kind: rapid.SampledFrom([]string{"join", "join", "append", "join", "join", "append", "stream", "iter"}).Draw(t, "kind"), Dst: rapid.IntRange(0, n-1).Draw(t, "dst")}
+			if o.Kind == "iter" {
+				o.Src = rapid.IntRange(0, 8).Draw(t, "iterSel")
+			}
 			if o.Kind == "join" || o.Kind == "stream" {
 				o.Src = rapid.IntRange(0, n-1).Draw(t, "src")
 				if o.Src == o.Dst {
@@ -153,6 +157,25 @@ func checkStructure(w *sim.World, st logState, windowed bool) string {
 }
 
 // hasBounded reports whether the program makes size-bounded merges.
+// iterate is the "iter" operation: an iteration over l with the bound op.Src selects, into a channel with room for
+// everything the log can hold during the case. Whether it succeeds is not the point here (a bound whose predecessors
+// the log does not hold is refused); the log must go on serving merges and appends afterwards.
+func iterate(l *ipfslog.IPFSLog, sel int) {
+	vs := l.Values().Slice()
+	opts := &ipfslog.IteratorOptions{}
+	if len(vs) > 0 {
+		e := vs[(sel/3)%len(vs)]
+		switch sel % 3 {
+		case 0:
+			opts.LT = []cid.Cid{e.GetHash()}
+		case 1:
+			opts.LTE = []cid.Cid{e.GetHash()}
+		}
+	}
+	ch := make(chan iface.IPFSLogEntry, len(vs)+256)
+	_ = l.Iterator(opts, ch)
+}
+
 func hasBounded(p c14Prog) bool {
 	for _, th := range p.Threads {
 		for _, op := range th {
@@ -338,6 +361,8 @@ func runMultiLogImpl(tb ev.TB, p c14Prog, prop string) ev.Result {
 						continue
 					}
 					w.Reg.Record(e)
+				case "iter":
+					iterate(d, op.Src)
 				case "join", "stream":
 					si := op.Src % n
 					if si == op.Dst%n {
@@ -549,6 +574,11 @@ func runC14Free(tb ev.TB, p c14Prog) ev.Result {
 							errs = append(errs, err.Error())
 							mu.Unlock()
 						}
+						continue
+					}
+					if op.Kind == "iter" {
+						iterate(d, op.Src)
+						atomic.AddInt32(&running, -1)
 						continue
 					}
 					si := op.Src % n
